@@ -92,6 +92,13 @@ def main():
             nm = os.path.join(src, "notes.md")
             if os.path.exists(nm):
                 meta["needs_to_manifest"] = open(nm).read()[:1500]
+            try:
+                prev = json.load(open(os.path.join(dst, "meta.json")))
+                for k_ in ("disposition",):          # hand-written judgement survives a re-run
+                    if k_ in prev:
+                        meta[k_] = prev[k_]
+            except Exception:
+                pass
             json.dump(meta, open(os.path.join(dst, "meta.json"), "w"), indent=1)
         return 0
     finally:
